@@ -98,3 +98,32 @@ def strip_doc(body):
     if body and isinstance(body[0], ast.Expr) and isinstance(body[0].value, ast.Constant) and isinstance(body[0].value.value, str):
         return body[1:]
     return body
+
+
+def imported_constants(rel, depth=0):
+    """Top-level constants visible in module `rel` through `from .x import ...` / `from src.x import ...` (one hop per level)."""
+    out = {}
+    if depth > 2:
+        return out
+    try:
+        tree, _ = module_ast(rel)
+    except Missing:
+        return out
+    base = os.path.dirname(rel)
+    for n in tree.body:
+        if isinstance(n, ast.ImportFrom) and n.module:
+            if n.level == 1:
+                target = os.path.join(base, n.module.replace(".", "/") + ".py")
+            elif n.module.startswith("src."):
+                target = n.module.replace(".", "/") + ".py"
+            else:
+                continue
+            if not os.path.exists(os.path.join(REPO, target)):
+                continue
+            consts = dict(imported_constants(target, depth + 1))
+            consts.update(module_constants(target))
+            names = [a.name for a in n.names]
+            for k, v in consts.items():
+                if "*" in names or k in names:
+                    out.setdefault(k, v)
+    return out
